@@ -84,10 +84,18 @@ def reported_cfg_keys(p, q):
 
 
 def equiv_check(oracle, ev, p, q, p_runs, exempt):
-    """C01 oracle. returns first difference dict or None; counts stats"""
+    """C01 oracle. returns first difference dict or None; counts stats.
+    A difference on a valuation inside the input region of a recorded known finding is kept aside and the scan
+    goes on: a difference outside that region is reported in preference."""
+    from . import findings as _f
+
+    region = _f.known_region(ev, p)
+    aside = None
     qir = q._loopir_proc
     for (val, rp) in p_runs:
         ctrl, lay, cfg0 = val
+        if region is not None and aside is not None and region(val):
+            continue
         try:
             rq = interp.run_proc(qir, ctrl, lay, cfg0)
         except ValueError:
@@ -105,8 +113,11 @@ def equiv_check(oracle, ev, p, q, p_runs, exempt):
                 oracle.stat("layout_incomparable")
                 continue
             d["input"] = val
+            if region is not None and region(val):
+                aside = aside or d
+                continue
             return d
-    return None
+    return aside
 
 
 def jsonable_val(val):
